@@ -113,7 +113,7 @@ def make_machine(tier):
         @vm.rule(mean=st.one_of(gen.fl(-2, 2), st.integers(-2, 2)), var=gen.fl(0.01, 2.0), name=st.sampled_from(['cx', 'cy']))
         @vm.traced
         def covobs(self, mean, var, name):
-            o = self.pe.cov_Obs(mean, var if name == 'cx' else var * 0 + 0.25, name)
+            o = self.pe.cov_Obs(mean, 0.25 if name == 'cx' else 0.6, name)   # one covariance matrix per name
             self.add(o, 'cov_Obs')
             self.labels.append('cov_Obs')
 
@@ -402,7 +402,7 @@ def closure_oracle(spec):
 # ---------------------------------------------------------------------------------------------- malformed requests
 MAL = ['dup_names', 'nonstring_name', 'nonstring_single', 'unsorted_idl', 'duplicate_idl', 'descending_range', 'len_mismatch_idl',
        'len_mismatch_names', 'len_mismatch_idl_count', 'few_samples', 'multi_ensemble', 'cov_name_sep', 'cov_asym', 'cov_indef',
-       'cov_nonsquare', 'merge_duplicate', 'cov_means_count']
+       'cov_nonsquare', 'merge_duplicate', 'cov_means_count', 'cov_asym_grad', 'cov_indef_grad', 'covobs_asym_grad', 'covobs_indef']
 
 
 @st.composite
@@ -477,6 +477,14 @@ def malformed_oracle(spec):
             return pe.cov_Obs([1.0, 2.0], [[1.0, 0.2 + spec['x'] * 0.01], [0.2, 1.0]], 'sys')
         if kind == 'cov_indef':
             return pe.cov_Obs([1.0, 2.0], [[1.0, 1.0 + spec['x']], [1.0 + spec['x'], 1.0]], 'sys')
+        if kind == 'cov_asym_grad':
+            return pe.cov_Obs([1.0, 2.0], [[1.0, 0.2 + spec['x'] * 0.01], [0.2, 1.0]], 'sys', grad=[1.0, 0.5])
+        if kind == 'cov_indef_grad':
+            return pe.cov_Obs([1.0, 2.0], [[1.0, 1.0 + spec['x']], [1.0 + spec['x'], 1.0]], 'sys', grad=[0.3, 1.0])
+        if kind == 'covobs_asym_grad':
+            return pe.covobs.Covobs(1.0, [[1.0, 0.2 + spec['x'] * 0.01], [0.2, 1.0]], 'sys', grad=[1.0, 0.5])
+        if kind == 'covobs_indef':
+            return pe.covobs.Covobs(1.0, [[1.0, 1.0 + spec['x']], [1.0 + spec['x'], 1.0]], 'sys', pos=0)
         if kind == 'cov_nonsquare':
             return pe.cov_Obs([1.0, 2.0], [[1.0, 0.0, 0.0], [0.0, 1.0, 0.0]], 'sys')
         if kind == 'cov_means_count':
